@@ -58,7 +58,9 @@ def corpus_streams():
 def long_line_docs(rng):
     """lines around and beyond MAX_LINESIZE (4096): fgets delivers them in chunks"""
     docs = []
-    for n in (4093, 4094, 4095, 4096, 4097, 8189, 8190, 8191, 9000):
+    # ... and N-1, N, N+1 around every integer constant of the CURRENT qaconf.c (after preprocessing)
+    src = sorted({n + d for n in vlib.source_numbers(["src/extensions/qaconf.c"], lo=16, hi=20000) for d in (-1, 0, 1)})
+    for n in [4093, 4094, 4095, 4096, 4097, 8189, 8190, 8191, 9000] + [n for n in src if n not in (4093, 4094, 4095, 4096, 4097, 8189, 8190, 8191, 9000)]:
         docs.append(b"a " + b"x" * (n - 2) + b"\nb 1\n")
         docs.append(b"a \"" + b"y" * (n - 4) + b"\" z\n")                 # quote spans the chunk boundary
         docs.append(b"<a " + b"1" * (n - 4) + b">\n</a>\n")
@@ -300,6 +302,25 @@ def parser_streams(check):
     tbl = AC_TABLES[0]
     sts.append(Stream("aconf-long-lines", [G.ac_op(rng.randrange(4), False, d, tbl) for d in long_line_docs(rng)]))
     sts.append(Stream("aconf-nesting", [G.ac_op(0, False, d, tbl) for d in nesting_docs()]))
+    # tokens the CURRENT parser sources mention (string literals, character constants) as names, values,
+    # arguments, section names, inside references and quotes; values / names whose lengths sit around the
+    # integer constants of the current qconfig.c
+    dic = [t for t in vlib.source_dictionary(["src/extensions/qconfig.c", "src/extensions/qaconf.c"]) if 0 not in t and b"\n" not in t]
+    toks = [t for t in dic if len(t) >= 2][:60] + [t for t in dic if len(t) == 1 and not t.isalnum()][:20]
+    ini_d, ac_d = [], []
+    for t in toks:
+        for d in (b"k=" + t + b"\n", t + b"=v\n", b"[" + t + b"]\nk=v\n", b"k=${" + t + b"}\nj=${k}\n", b"k=x " + t + b" y\n" + t + b"\n",
+                  b"a=1\n" + t + b" b=2\n", b"k=" + t + t + b"\n[s]\n" + t + b"\n"):
+            ini_d.append(G.ini_op(0x3d, d, INI_ENV))
+        for d in (b"a " + t + b"\n", t + b" 1\n", b"<a " + t + b">\n</a>\n", b"a \"" + t + b"\" z\n", b"<a s>\n1 " + t + b"\n</a>\n",
+                  b"a '" + t + b"\n", b"1 " + t + b" " + t + b"\n"):
+            ac_d.append(G.ac_op(rng.randrange(4), False, d, tbl))
+    for n in sorted({n + d for n in vlib.source_numbers(["src/extensions/qconfig.c"], lo=16, hi=70000) for d in (-1, 0, 1)}):
+        ini_d.append(G.ini_op(0x3d, b"k=" + b"v" * n + b"\nj=${k}\n", {}))
+        ini_d.append(G.ini_op(0x3d, b"[" + b"s" * (n // 2) + b"]\n" + b"k" * (n - n // 2 - 1) + b"=v\n", {}))
+        ini_d.append(G.ini_op(0x3d, b"k=" + b"${E}" * (n // 4) + b"\n", {b"E": b"x"}))
+    sts.append(Stream("ini-source-dictionary", ini_d, note="%d tokens from the current sources" % len(toks)))
+    sts.append(Stream("aconf-source-dictionary", ac_d))
     sts.append(Stream("ini-long-lines", [G.ini_op(0x3d, b"k=" + b"v" * n + b"${k}" * 3 + b"\nj=${k}${k}\n", {}) for n in (100, 5000, 8000)]))
     # --- grammar-aware random documents with byte mutations
     n = 1500 if tier == "quick" else 30000
